@@ -22,3 +22,46 @@ func init() {
 			"func (db *DB) Commit() *DB {\n", "func (db *DB) Commit() *DB {\n\tif db.Error != nil {\n\t\treturn db\n\t}\n"}}},
 	)
 }
+
+func init() {
+	addMutants(
+		Mutant{Name: "c08-join-query-clauses-before-caller-conditions", Property: "C08", Rule: "C08.join-filter-group", Edits: []Edit{{"callbacks/query.go",
+			"\t\t\t\t\t\t\t\tif join.On != nil {\n\t\t\t\t\t\t\t\t\tonStmt.AddClause(join.On)\n\t\t\t\t\t\t\t\t}\n\n\t\t\t\t\t\t\t\tfor _, c := range relation.FieldSchema.QueryClauses {\n\t\t\t\t\t\t\t\t\tonStmt.AddClause(c)\n\t\t\t\t\t\t\t\t}",
+			"\t\t\t\t\t\t\t\tfor _, c := range relation.FieldSchema.QueryClauses {\n\t\t\t\t\t\t\t\t\tonStmt.AddClause(c)\n\t\t\t\t\t\t\t\t}\n\n\t\t\t\t\t\t\t\tif join.On != nil {\n\t\t\t\t\t\t\t\t\tonStmt.AddClause(join.On)\n\t\t\t\t\t\t\t\t}"}},
+			Note: "reverts the fix of finding F14"},
+		Mutant{Name: "n102-join-query-clauses-first-but-caller-conditions-grouped", Property: "*", Rule: "NEUTRAL", Edits: []Edit{{"callbacks/query.go",
+			"\t\t\t\t\t\t\t\tif join.On != nil {\n\t\t\t\t\t\t\t\t\tonStmt.AddClause(join.On)\n\t\t\t\t\t\t\t\t}\n\n\t\t\t\t\t\t\t\tfor _, c := range relation.FieldSchema.QueryClauses {\n\t\t\t\t\t\t\t\t\tonStmt.AddClause(c)\n\t\t\t\t\t\t\t\t}",
+			"\t\t\t\t\t\t\t\tfor _, c := range relation.FieldSchema.QueryClauses {\n\t\t\t\t\t\t\t\t\tonStmt.AddClause(c)\n\t\t\t\t\t\t\t\t}\n\n\t\t\t\t\t\t\t\tif join.On != nil && len(join.On.Exprs) > 0 {\n\t\t\t\t\t\t\t\t\tonStmt.AddClause(clause.Where{Exprs: []clause.Expression{clause.And(join.On.Exprs...)}})\n\t\t\t\t\t\t\t\t}"}},
+			Note: "the other correct form: the caller's conditions as one grouped unit"},
+	)
+}
+
+func init() {
+	addMutants(
+		// C09.marker filter-once
+		Mutant{Name: "c09-soft-delete-filter-without-marker-test", Property: "C09", Rule: "C09.marker", Edits: []Edit{{"soft_delete.go",
+			"\tif _, ok := stmt.Clauses[\"soft_delete_enabled\"]; !ok && !stmt.Statement.Unscoped {", "\tif !stmt.Statement.Unscoped {"}}},
+		// C11.all-parents
+		Mutant{Name: "c11-attach-loop-stops-after-first-parent", Property: "C11", Rule: "C11.all-parents", Edits: []Edit{{"callbacks/preload.go",
+			"\t\t\tcase reflect.Struct:\n\t\t\t\ttx.AddError(rel.Field.Set(tx.Statement.Context, data, elem.Interface()))\n", "\t\t\tcase reflect.Struct:\n\t\t\t\ttx.AddError(rel.Field.Set(tx.Statement.Context, data, elem.Interface()))\n\t\t\t\tif rel.Type == schema.HasOne {\n\t\t\t\t\tcontinue\n\t\t\t\t}\n"}},
+			Note: "a continue in the attaching loop (harmless here, but the rule requires the loop to skip nothing)"},
+		Mutant{Name: "n103-parents-list-looked-up-with-a-renamed-variable", Property: "*", Rule: "NEUTRAL", Edits: []Edit{
+			{"callbacks/preload.go", "\t\tdatas, ok := identityMap[utils.ToStringKey(fieldValues...)]\n", "\t\tparents, ok := identityMap[utils.ToStringKey(fieldValues...)]\n"},
+			{"callbacks/preload.go", "\t\tfor _, data := range datas {\n", "\t\tfor _, data := range parents {\n"}}},
+		// C12.key-partners
+		Mutant{Name: "c12-delete-many2many-values-from-schema-key", Property: "C12", Rule: "C12.key-partners", Edits: []Edit{{"association.go",
+			"\t\t\t_, rvs := schema.GetIdentityFieldValuesMapFromValues(association.DB.Statement.Context, values, relPrimaryFields)\n\t\t\trelColumn, relValues := schema.ToQueryValues(rel.JoinTable.Table, joinRelPrimaryKeys, rvs)", "\t\t\t_, rvs := schema.GetIdentityFieldValuesMapFromValues(association.DB.Statement.Context, values, rel.FieldSchema.PrimaryFields)\n\t\t\trelColumn, relValues := schema.ToQueryValues(rel.JoinTable.Table, joinRelPrimaryKeys, rvs)"}}},
+		Mutant{Name: "c12-replace-owner-values-through-rel-fields", Property: "C12", Rule: "C12.key-partners", Edits: []Edit{{"association.go",
+			"\t\t\t_, pvs := schema.GetIdentityFieldValuesMap(association.DB.Statement.Context, reflectValue, primaryFields)\n\t\t\tif column, values := schema.ToQueryValues(rel.JoinTable.Table, joinPrimaryKeys, pvs); len(values) > 0 {", "\t\t\t_, pvs := schema.GetIdentityFieldValuesMap(association.DB.Statement.Context, reflectValue, relPrimaryFields)\n\t\t\tif column, values := schema.ToQueryValues(rel.JoinTable.Table, joinPrimaryKeys, pvs); len(values) > 0 {"}},
+			Note: "the owner's join columns compared with values extracted through the target-side field list (built in the other branch)"},
+		// C13.batch-error
+		Mutant{Name: "c13-batch-error-only-without-callback-error", Property: "C13", Rule: "C13.batch-error", Edits: []Edit{{"finisher_api.go",
+			"\t\t} else if result.Error != nil {\n\t\t\ttx.AddError(result.Error)\n\t\t}", "\t\t} else if result.Error != nil && result.RowsAffected == 0 {\n\t\t\ttx.AddError(result.Error)\n\t\t}"}}},
+		Mutant{Name: "n104-batch-error-recorded-first", Property: "*", Rule: "NEUTRAL", Edits: []Edit{{"finisher_api.go",
+			"\t\tif result.Error == nil && result.RowsAffected != 0 {\n\t\t\tfcTx := result.Session(&Session{NewDB: true})\n\t\t\tfcTx.RowsAffected = result.RowsAffected\n\t\t\ttx.AddError(fc(fcTx, batch))\n\t\t} else if result.Error != nil {\n\t\t\ttx.AddError(result.Error)\n\t\t}",
+			"\t\tif result.Error != nil {\n\t\t\ttx.AddError(result.Error)\n\t\t} else if result.RowsAffected != 0 {\n\t\t\tfcTx := result.Session(&Session{NewDB: true})\n\t\t\tfcTx.RowsAffected = result.RowsAffected\n\t\t\ttx.AddError(fc(fcTx, batch))\n\t\t}"}}},
+		// C10.key-all
+		Mutant{Name: "c10-model-update-key-from-first-primary-field", Property: "C10", Rule: "C10.key-all", Edits: []Edit{{"callbacks/update.go",
+			"\t\tcase reflect.Struct:\n\t\t\tfor _, field := range stmt.Schema.PrimaryFields {\n\t\t\t\tif value, isZero := field.ValueOf(stmt.Context, stmt.ReflectValue); !isZero {", "\t\tcase reflect.Struct:\n\t\t\tfor _, field := range stmt.Schema.PrimaryFields[:1] {\n\t\t\t\tif value, isZero := field.ValueOf(stmt.Context, stmt.ReflectValue); !isZero {"}}},
+	)
+}
